@@ -467,7 +467,7 @@ func transTVFTypeWithSet(visited SSet, transTV func(TypeVar) FType, ftp FType) F
 		}))
 	case FType_FUnion:
 		ut := _v17.Value
-		uname := utName(ut)
+		uname := uniToKey(ut)
 		return frt.IfElse(SSetHasKey(visited, uname), (func() FType {
 			return ftp
 		}), (func() FType {
